@@ -453,6 +453,25 @@ fn parse_events(dir: &Path) -> Vec<AgentEv> {
     v
 }
 
+/// The closing line of a successful invocation, as far as the property words it: `ran N tasks` with
+/// N the number of commands that completed successfully, `no work to do` exactly when N is zero.
+/// (The rest of the line's wording is n2's business.)
+pub fn summary_ok(line: &str, n: usize) -> bool {
+    let says_none = line.contains("no work to do");
+    if n == 0 {
+        return says_none;
+    }
+    let key = format!("ran {} task", n);
+    match line.find(&key) {
+        Some(at) => {
+            // "ran 1 task" must not match inside "ran 12 tasks"; the char before must not be a digit either
+            let before_ok = at == 0 || !line.as_bytes()[at - 1].is_ascii_alphanumeric();
+            before_ok && !says_none
+        }
+        None => false,
+    }
+}
+
 /// True when n2 runs under a sanitizer or valgrind (these reserve huge address ranges).
 pub fn wants_address_space(env: &RealEnv) -> bool {
     let n = env.n2.to_string_lossy();
